@@ -419,6 +419,11 @@ func finish(obs *CallObs, s flows.Session, sp flows.Sprint, err error, p any, hu
 			e.n(1, ee.Code())
 			if s != nil {
 				e.session(s) // the session after a rejected resume (the model says: as it was)
+				if sp != nil {
+					e.sprint(s, sp) // ... and what the call produced (the model says: nothing)
+				} else {
+					e.n(0, 0)
+				}
 			}
 		} else {
 			obs.Kind = 2
